@@ -389,7 +389,19 @@ func checkRelaxedTime(r *Report, p *Prog) {
 	var layouts []string
 	okL := true
 	whyL := ""
-	for _, c := range methodCallsOn(um, "time.Parse") {
+	parseCalls := methodCallsOn(um, "time.Parse")
+	for _, c := range methodCallsOn(um, "time.ParseInLocation") {
+		// equivalent to time.Parse only for time.UTC
+		isUTC := false
+		if ld, ok := c.Call.Args[2].(*ssa.UnOp); ok {
+			if g, ok := ld.X.(*ssa.Global); ok && g.Pkg != nil && g.Pkg.Pkg.Path() == "time" && g.Name() == "UTC" {
+				isUTC = true
+			}
+		}
+		r.Check(isUTC, rule, p.FnName(um)+": zone-less text is read as UTC", p.InstrPos(c), "ParseInLocation(..., time.UTC)", "instants written without a zone designator are interpreted in "+fu.AP(c.Call.Args[2])+" instead of UTC: every validity window slides by the host's UTC offset")
+		parseCalls = append(parseCalls, c)
+	}
+	for _, c := range parseCalls {
 		if l, ok := constStr(c.Call.Args[0]); ok {
 			layouts = append(layouts, l)
 			continue
